@@ -1,1 +1,3 @@
 import SsoModel.Breaker
+import SsoModel.Singleflight
+import SsoModel.SfWrappers
